@@ -1,7 +1,7 @@
 (* C14 — Contact queries round-trip through text and cannot be injected into.
    Statements only; proofs are in proofs/CqlQuoteProofs.v, CqlLexProofs.v, CqlSimplifyProofs.v, CqlParseProofs.v,
    CqlRegexProofs.v, CqlGrammarFacts.v, CqlLexPrintProofs.v, CqlParserProofs.v, CqlRoundTripProofs.v,
-   CqlTemplateProofs.v.
+   CqlTemplateProofs.v, CqlRegexSound.v, CqlAcceptedProofs.v.
    Models: model/CqlPrinter.v (Condition.String, BoolCombination.String, Stringify, QuoteValue, Simplify),
    model/CqlParser.v (lexer = the token rules regenerated from antlr/ContactQL.g4 into gen/GrammarCQL.v, run by the
    maximal-munch tokenizer of lib/RegexLM.v; parser; visitor; ParseQuery), lib/Quote.v (strconv.Quote/Unquote).
@@ -12,7 +12,7 @@
 From Coq Require Import List NArith Bool.
 From Verif Require Import lib.Quote lib.RegexLM model.CqlSyntax gen.GrammarCQL model.CqlPrinter model.CqlParser
   proofs.CqlQuoteProofs proofs.CqlLexProofs proofs.CqlSimplifyProofs proofs.CqlParseProofs
-  proofs.CqlLexPrintProofs proofs.CqlParserProofs proofs.CqlRoundTripProofs proofs.CqlTemplateProofs.
+  proofs.CqlLexPrintProofs proofs.CqlParserProofs proofs.CqlRoundTripProofs proofs.CqlTemplateProofs proofs.CqlRegexSound proofs.CqlAcceptedProofs.
 Import ListNotations.
 Open Scope N_scope.
 
@@ -174,16 +174,34 @@ Example c14_print_parse_example : forall redact,
 Proof. exact q_example_ok. Qed.
 Print Assumptions c14_print_parse_example.
 
-(* FULL STATEMENT (false, see c14_parse_print_parse_refuted): for every text s that ParseQuery accepts,
-   parse_query e (stringify p (parse result)) gives the same query.
-   PARTIAL: it holds when the accepted query is a valid tree.  What is missing: that every accepted query is one —
-   i.e. that the visitor's lower-casing maps key characters to key characters of the grammar and that the schemes
-   of implicit URN conditions are writable keys. *)
-Theorem c14_parse_print_parse_partial : forall p e s q, p 10 = false ->
-  parse_query e s = QOk (Some q) -> valid_tree e q ->
-  parse_query e (stringify p (Some q)) = QOk (Some q).
-Proof. exact parse_print_parse. Qed.
+(* Sentence 1.  FULL STATEMENT (false, see c14_parse_print_parse_refuted): for every text s that ParseQuery accepts,
+   parse_query e (stringify p (parse result)) gives the same query, for every environment.
+   PARTIAL: it holds for every environment whose tables satisfy [env_ok]:
+     lowerK / lowerL   lower-casing maps the grammar's key characters / letters to key characters / letters,
+     lower_idem        and is idempotent on key characters,
+     lower_ascii       and is the ASCII map on ASCII;
+     schemes_ok        every valid URN scheme is a non-empty run of key characters fixed by lower-casing;
+     urn_ok, phone_ok  the URN and phone-number parsers return valid code points;
+   and for every valid-UTF-8 text.  What is missing is lowerK for Go's unicode.ToLower against the grammar's (old)
+   Unicode tables: it fails e.g. for U+13A0 — exactly the refutation below and the listed known finding.  Everything
+   else about accepted queries is proved: token texts belong to their rules' languages (soundness of the derivative
+   matcher), so property texts have the shape (letters+ .)? keychars+ and comparators are among 19 texts; the parser
+   only assembles tokens; the visitor's five condition forms and four implicit forms each yield a condition that can
+   be written again; Unquote returns valid code points; Simplify keeps valid trees valid. *)
+Theorem c14_accepted_is_valid : forall e, env_ok e -> forall s q,
+  valid_codepoints s -> parse_query e s = QOk (Some q) -> valid_tree e q.
+Proof. exact accepted_valid. Qed.
+Print Assumptions c14_accepted_is_valid.
+
+Theorem c14_parse_print_parse_partial : forall p e s q, p 10 = false -> env_ok e -> valid_codepoints s ->
+  parse_query e s = QOk (Some q) -> parse_query e (stringify p (Some q)) = QOk (Some q).
+Proof. exact parse_print_parse_env. Qed.
 Print Assumptions c14_parse_print_parse_partial.
+
+(* env_ok is satisfiable (ASCII lower-casing, one scheme), under both redaction policies *)
+Example c14_env_ok_example : forall redact, env_ok (env_example redact ascii_lower).
+Proof. exact env_example_ok. Qed.
+Print Assumptions c14_env_ok_example.
 
 (* `fields.X = 1` with X = U+13A0 is accepted; the key is lower-cased to U+AB70 as Go does; the formatted query
    `fields.<U+AB70> = 1` is a syntax error (listed in KNOWN_FINDINGS.txt,
